@@ -3,7 +3,9 @@
 Messenger base guards they call first, _tx_teardown, _rx_setup and _rx_teardown,
 as Gallina functions over the abstract handler state of
 coq/Model/TcpclHandlerSt.v -> coq/Gen/TcpclHandlers.v; and the control decisions
-described further down -> coq/Gen/TcpclControl.v.
+described further down -> coq/Gen/TcpclControl.v; and the report loop at the head of
+ContactHandler.close (same statement forms; it must be followed by exactly the removal from
+the bus and Messenger.close) -> coq/Gen/TcpclClose.v.
 
 Fail closed: every statement and expression must have one of the shapes listed
 below, anything else raises Shape.
@@ -299,10 +301,11 @@ def block(stmts, env, func_name, final, allow_raise, indent):
         loop_env.items[first.targets[0].id] = dict(id='(fst it)', opt=None, in_map=False, total='(snd it)')
         body = block(list(stmt.body[1:]), loop_env, func_name, 'h', False, 1)
         item_name = 'gen_%s_item' % func_name
-        env.aux.append('Definition %s (%s : N) (it : N * option N) (h : hst) : hst :=\n%s.\n' % (
-            item_name, ' '.join(env.params), body))
-        return pad + 'let h := fold_left (fun h it => %s %s it h) (h_pend_start h) (set_h_pend_start [] h) in\n' % (
-            item_name, ' '.join(env.params)) + cont()
+        binder = '(%s : N) ' % ' '.join(env.params) if env.params else ''
+        args = ''.join(name + ' ' for name in env.params)
+        env.aux.append('Definition %s %s(it : N * option N) (h : hst) : hst :=\n%s.\n' % (item_name, binder, body))
+        return pad + 'let h := fold_left (fun h it => %s %sit h) (h_pend_start h) (set_h_pend_start [] h) in\n' % (
+            item_name, args) + cont()
     if isinstance(stmt, ast.Assign) and len(stmt.targets) == 1:
         target = stmt.targets[0]
         call = map_call(stmt.value)
@@ -735,6 +738,32 @@ def control(repo_src, tree):
     return '\n'.join(parts)
 
 
+def close_flush(tree):
+    # ContactHandler.close: the report loop over the unstarted transfers must come first, then the
+    # removal from the bus and Messenger.close (nothing may be reported after the connection is down)
+    func = find_func(tree, 'ContactHandler', 'close')
+    if [arg.arg for arg in func.args.args] != ['self']:
+        raise Shape('close: unexpected signature')
+    body = [stmt for stmt in func.body if not is_doc(stmt) and not is_logger(stmt)]
+    if len(body) != 3 or not isinstance(body[0], ast.While):
+        raise Shape('close: expected the report loop, remove_from_connection and Messenger.close: %s'
+                    % [ast.unparse(stmt) for stmt in body])
+    if ast.unparse(body[1]) != 'if tuple(self.locations):\n    self.remove_from_connection()' \
+            or ast.unparse(body[2]) != 'Messenger.close(self)':
+        raise Shape('close: statements after the report loop changed: %s' % [ast.unparse(stmt) for stmt in body[1:]])
+    env = Env(tree, [])
+    text = block([body[0]], env, 'close', 'h', False, 1)
+    return '\n'.join([
+        '(** GENERATED by translate/targets/tcpclhandlers.py from tcpcl/session.py -- do not edit. *)',
+        'From Coq Require Import List NArith Bool.',
+        'From DTN Require Import Lib.Bytes Model.TcpclMsg Model.TcpclSess Model.TcpclHandlerSt.',
+        'Import ListNotations.',
+        'Local Open Scope N_scope.',
+        '',
+    ] + env.aux + ['(* ContactHandler.close, before the connection goes down *)',
+                   'Definition gen_close_flush (h : hst) : hst :=\n%s.\n' % text])
+
+
 def generate(repo_src):
     with open(os.path.join(repo_src, 'tcpcl', 'session.py'), 'r') as infile:
         tree = ast.parse(infile.read())
@@ -750,4 +779,5 @@ def generate(repo_src):
     ]
     for name in ('recv_xfer_ack', 'recv_xfer_refuse', 'recv_sess_term', 'recv_xfer_data'):
         parts.append(handler(tree, name))
-    return {'Gen/TcpclHandlers.v': '\n'.join(parts), 'Gen/TcpclControl.v': control(repo_src, tree)}
+    return {'Gen/TcpclHandlers.v': '\n'.join(parts), 'Gen/TcpclControl.v': control(repo_src, tree),
+            'Gen/TcpclClose.v': close_flush(tree)}
